@@ -674,6 +674,11 @@ func (w *World) backSlice(v ssa.Value, opt flowOpt) map[ssa.Value]bool {
 				}
 			}
 		case *ssa.Call:
+			if b, ok := x.Call.Value.(*ssa.Builtin); ok && b.Name() == "append" {
+				for _, a := range x.Call.Args {
+					visit(a)
+				}
+			}
 			if opt.Through != nil && opt.Through[calleeName(x)] {
 				for _, a := range x.Call.Args {
 					visit(a)
